@@ -38,7 +38,16 @@ def corruptions(schema, rng, k):
     pos = list(positions.rule_sets(schema))
     out = []
     for path, pkind, rules in rng.sample(pos, min(len(pos), k)):
-        choice = rng.randrange(6)
+        choice = rng.randrange(8)
+        if choice == 6:
+            # the rules set itself is not a mapping (nor a name)
+            bad = rng.choice([5, None, 1.5, [1], ('type', 'string')])     # (a bool is a legal allow_unknown value)
+            out.append(("non-mapping-rules-set", pkind, positions.set_at(schema, path, bad)))
+            continue
+        if choice == 7:
+            bad = rng.choice([5, 7, ('a',)])        # keys the path ordering of cerberus supports (int, str, tuple)
+            out.append(("non-string-rule-name", pkind, positions.edit_at(schema, path, lambda r, bad=bad: r.__setitem__(bad, 1))))
+            continue
         if choice == 0:
             out.append(("unknown-rule", pkind, positions.edit_at(schema, path, lambda r: r.__setitem__('no_such_rule', 1))))
         elif choice == 1:
@@ -153,7 +162,7 @@ def real_accepts(schema, cfg):
 
 def run(ctx):
     thorough = ctx["tier"] == "thorough"
-    n = 4000 if thorough else 220 * ctx.get('scale', 1)
+    n = 1500 if thorough else 220 * ctx.get('scale', 1)
     rng = random.Random(ctx["seed"] + 4)
     g = Gen(ctx["seed"] + 40, normalization=True, nested_bias=True)
     violations, samples = [], []
@@ -188,7 +197,7 @@ def run(ctx):
             model_lines.append(encode_accept(schema, cfg)); model_jobs.append((schema, cfg, "grammar", "accepted"))
         except ValueError:
             pass
-        for kind, pkind, bad in corruptions(schema, rng, 3 if not thorough else 8):
+        for kind, pkind, bad in corruptions(schema, rng, 3 if not thorough else 6):
             distinct.add(json.dumps(common.jval(bad), sort_keys=True, default=repr))
             try:
                 model_lines.append(encode_accept(bad, cfg)); model_jobs.append((bad, cfg, kind, None))
